@@ -2,6 +2,7 @@
 package state
 
 import (
+	"github.com/NethermindEth/juno/core"
 	"github.com/NethermindEth/juno/core/felt"
 	"github.com/NethermindEth/juno/db/memory"
 	"github.com/NethermindEth/juno/zzverif/vx"
@@ -104,4 +105,72 @@ func VxC03NewBackendHistory() {
 		}
 		vx.Assert(lerr == nil && lu == wantLU, "last-updated-block")
 	}
+}
+
+// C03-H4 (new backend, history write + revert): the history entries a block writes are exactly the
+// entries its revert deletes. A diff touching storage, a nonce, a replaced class and a deployed
+// contract (each section present or absent, values symbolic) is logged at a symbolic block n on top
+// of earlier entries; after deleteHistory(n) every historical read, at n and above, answers what it
+// answered before the block, and the database holds no entry that was not there before.
+func VxC03HistoryWriteThenRevert() {
+	vx.Bound("one block at symbolic height n > earlier entries; diff sections {storage, nonce, replaced class, deployed contract} each present or absent; values symbolic")
+	d := memory.New()
+	sr := &StateReader{db: &StateDB{disk: d}}
+	a1 := felt.NewFromUint64[felt.Felt](0x1000) // existing contract
+	a2 := felt.NewFromUint64[felt.Felt](0x2000) // deployed by the block
+	slot := felt.NewFromUint64[felt.Felt](0x20)
+	// earlier history at block m < n
+	m := vx.U64("m")
+	n := vx.U64("n")
+	vx.Assume(m < n)
+	vOld, nOld, cOld := vxFeltIn("oldval"), vxFeltIn("oldnonce"), vxFeltIn("oldclass")
+	vx.Assert(WriteStorageHistory(d, a1, slot, m, vOld) == nil && WriteNonceHistory(d, a1, m, nOld) == nil &&
+		WriteClassHashHistory(d, a1, m, cOld) == nil, "seed-history")
+	countKeys := func() int {
+		it, err := d.NewIterator(nil, false)
+		vx.Assert(err == nil, "iterate")
+		c := 0
+		for ok := it.First(); ok; ok = it.Next() {
+			c++
+		}
+		_ = it.Close()
+		return c
+	}
+	before := countKeys()
+	diff := core.EmptyStateDiff()
+	if vx.Bool("hasStorage") {
+		diff.StorageDiffs[*a1] = map[felt.Felt]*felt.Felt{*slot: vxFeltIn("newval")}
+		vx.Cover("storage")
+	}
+	if vx.Bool("hasNonce") {
+		diff.Nonces[*a1] = vxFeltIn("newnonce")
+		vx.Cover("nonce")
+	}
+	if vx.Bool("hasReplaced") {
+		diff.ReplacedClasses[*a1] = vxFeltIn("newclass")
+		vx.Cover("replaced-class")
+	}
+	if vx.Bool("hasDeployed") {
+		diff.DeployedContracts[*a2] = vxFeltIn("deployedclass")
+		vx.Cover("deployed")
+	}
+	batch := d.NewBatch()
+	st := &State{batch: batch}
+	vx.Assert(st.writeHistory(n, &diff) == nil, "write-history-ok")
+	vx.Assert(batch.Write() == nil, "commit-block")
+	// revert
+	batch2 := d.NewBatch()
+	st2 := &State{batch: batch2}
+	vx.Assert(st2.deleteHistory(n, &diff) == nil, "delete-history-ok")
+	vx.Assert(batch2.Write() == nil, "commit-revert")
+	vx.Assert(countKeys() == before, "revert-leaves-no-orphan-history-entry")
+	q := vx.U64("q")
+	vx.Assume(q >= n)
+	gv, e1 := sr.ContractStorageAt(a1, slot, q)
+	gn, e2 := sr.ContractNonceAt(a1, q)
+	gc, e3 := sr.ContractClassHashAt(a1, q)
+	vx.Assert(e1 == nil && e2 == nil && e3 == nil, "reads-ok")
+	vx.Assert(gv.Equal(vOld) && gn.Equal(nOld) && gc.Equal(cOld), "reads-after-revert-equal-reads-before-block")
+	dc, e4 := sr.ContractClassHashAt(a2, q)
+	vx.Assert(e4 == nil && dc.IsZero(), "reverted-deployment-leaves-no-class-history")
 }
